@@ -14,9 +14,17 @@ Z  == [k |-> "w", a |-> 2, n |-> 2, d |-> <<6, 7>>, m |-> <<1, 0>>]   \* other b
 
 MCPayloads == {W1, W2, R1, R2, X, Y, Z}
 MCSmall == {W1, W2, R1, X}
-NoDev == {}
 AsImplemented == {"RowHitBypassesDelayQueue", "PassesBlockedHit", "LaneOvertake"}
-DevBypass == {"RowHitBypassesDelayQueue"}
-DevPass == {"PassesBlockedHit"}
-DevLane == {"LaneOvertake"}
+Cfg(width, track, dev) == [nb |-> 2, il |-> 2, rowsz |-> 2, width |-> width, track |-> track, dev |-> dev]
+\* the intended design
+DesignT1 == Cfg(1, TRUE, {})          \* row tracking, one lane
+DesignT2 == Cfg(2, TRUE, {})          \* row tracking, two lanes
+DesignN2 == Cfg(2, FALSE, {})         \* no row tracking, two lanes
+\* one deviation at a time (TLC must find the counterexample)
+BypassT1 == Cfg(1, TRUE, {"RowHitBypassesDelayQueue"})
+PassT1   == Cfg(1, TRUE, {"PassesBlockedHit"})
+LaneN2   == Cfg(2, FALSE, {"LaneOvertake"})
+\* the pinned code
+ImplT1 == Cfg(1, TRUE, AsImplemented)
+ImplN2 == Cfg(2, FALSE, AsImplemented)
 =============================================================================
